@@ -17,7 +17,7 @@ from framework import Infra
 ID = 'C11'
 LEAN_PROPS = 'SupervisorModel.Props.C11'
 DRIVER = 'drv_c11'
-GENERATED = ['Envelope', 'EventNames', 'Tick']
+GENERATED = ['Envelope', 'EventNames', 'Tick', 'Notify', 'OutDisp']
 TRUSTED = [
     "modelled, not verified: Python's '%' formatting with %s/%(k)s conversions of str and int, str.encode('utf-8') "
     "(the encoder is defined in Lean and compared with Python's on every payload), dict iteration order = insertion order",
@@ -423,6 +423,11 @@ def run(ctx):
         cases.append(('case tick x', ['tick %d' % n for n in readings]))
     ctx.sample({'case': cases[2][1], 'impl': impls[2]})
     ctx.correspond('tick', cases, impls)
+    # ---- what is announced, and when ----
+    from props import _c11_notify as nt
+    nt.group_histories(ctx)
+    nt.finish_cases(ctx)
+    nt.change_cases(ctx)
 
 
 def replay(ctx, data):
